@@ -186,23 +186,33 @@ HeadKinds(layout) ==
     [] layout = "p2s"  -> <<"shebang", "cookie">>
     [] layout = "p2b"  -> <<"blank", "cookie">>
     [] layout = "p2p"  -> <<"paycomment", "cookie">>         \* after a comment that carries characters
+    [] layout = "l1"   -> <<"longcomment">>                  \* a very long first line, no cookie
+    [] layout = "p2l"  -> <<"longcomment", "cookie">>        \* cookie after a very long comment line
     [] layout = "p2x"  -> <<"code", "cookie">>               \* after code: not a declaration
     [] layout = "p3"   -> <<"shebang", "comment", "cookie">> \* third line: not a declaration
 
 (* PEP 263: first or second line, the first only if comment-only or blank *)
-Effective(layout) == layout \in {"p1", "p2s", "p2b", "p2p"}
+Effective(layout) == layout \in {"p1", "p2s", "p2b", "p2p", "p2l"}
+NoCookieLayouts == {"none", "l1"}
+
+(* Run-length abstraction of a very long line: PadMark stands for a run of K ASCII  *)
+(* letters, K chosen by the renderer (4 092 .. 5 000: the line is longer than any   *)
+(* buffer a tool may sniff).  All the spec needs to know: the run is ASCII, holds no *)
+(* line break, and is one byte per character in every encoding of the model.        *)
+PadMark == 1
 
 DeclEnc(f) == IF Effective(f.layout) THEN Canon(f.cookie[2]) ELSE "utf-8"
 
 (* With a BOM an effective cookie must *normalise* to utf-8 in the tokenizer's *)
 (* own table (lower case, "_" = "-", "utf-8" or "utf-8-..."); the alias       *)
 (* "utf8" is a SyntaxError there ("encoding problem: utf8 with BOM").         *)
-BomOK(f) == f.bom => (~Effective(f.layout) \/ f.layout = "none"
+BomOK(f) == f.bom => (~Effective(f.layout) \/ f.layout \in NoCookieLayouts
                       \/ f.cookie[2] \in {"utf-8", "UTF-8", "utf-8-sig"})
 
 HeadLine(kind, cookie, hp) ==
   CASE kind = "shebang" -> S_shebang
     [] kind = "paycomment" -> T_com_pre \o [j \in 1..Len(hp) |-> ClassCp[hp[j]]]
+    [] kind = "longcomment" -> T_com_pre \o <<PadMark>>
     [] kind = "blank"   -> <<>>
     [] kind = "code"    -> S_code
     [] kind = "comment" -> S_comment
@@ -253,7 +263,7 @@ PayChars(f) == SumPay(f.body)
 
 (* valid Python source in the declared encoding; closed under prefixes of the body *)
 Prefixable(f) ==
-  /\ (f.layout = "none") <=> (f.cookie = NoCookie)
+  /\ (f.layout \in NoCookieLayouts) <=> (f.cookie = NoCookie)
   /\ f.bom => DeclEnc(f) = "utf-8"                 \* a BOM with another cookie is a SyntaxError
   /\ BomOK(f)
   /\ \A j \in 1..Len(f.body) :
@@ -334,7 +344,7 @@ NoRead == [text |-> <<>>, nl |-> "LF", bom |-> FALSE]
 
 Init ==
   /\ \E layout \in Layouts, nl \in NLs, final \in Finals, bom \in Boms :
-       \E cookie \in (IF layout = "none" THEN {NoCookie} ELSE Cookies),
+       \E cookie \in (IF layout \in NoCookieLayouts THEN {NoCookie} ELSE Cookies),
           hp \in (IF layout = "p2p" THEN {<<>>} \cup {<<c>> : c \in HeadClasses} ELSE {<<>>}) :
          file = [bom |-> bom, layout |-> layout, cookie |-> cookie, hp |-> hp, body |-> <<>>,
                  name |-> "old", nl |-> nl, final |-> final]
@@ -489,7 +499,7 @@ Spec == Init /\ [][Next]_vars
 (* Invariants *)
 FileOK(f) ==
   /\ f.bom \in BOOLEAN /\ f.final \in BOOLEAN /\ f.nl \in {"LF", "CRLF", "CR"}
-  /\ f.layout \in {"none", "p1", "p2s", "p2b", "p2p", "p2x", "p3"}
+  /\ f.layout \in {"none", "p1", "p2s", "p2b", "p2p", "p2x", "p3", "l1", "p2l"}
   /\ f.hp \in Seq(DOMAIN ClassCp)
   /\ f.name \in {"old", "long", "short", "lat", "cjk"}
   /\ \A j \in 1..Len(f.body) :
